@@ -124,6 +124,13 @@ impl Typer
 		self.calculated_named_lengths.insert(resolution_id, value);
 	}
 
+	/// Mark a constant as poisoned after it failed to compile,
+	/// so that declarations that depend on it are poisoned as well.
+	pub fn poison_constant(&mut self, name: &Identifier)
+	{
+		self.poison_symbol(name, Poison::Poisoned);
+	}
+
 	fn put_symbol(
 		&mut self,
 		identifier: &Identifier,
